@@ -181,6 +181,17 @@ M = {
                                            'the parts a date text leaves out come from today again: ">=Jan 2024" selects by the day of the month on which it is asked (31b228a)'),
     'c18-unknown-value-type-emitted': ('C18', [(SRC + 'translators/cell_translator.py', "            elif isinstance(cell.value, (bool, int, float, str, datetime.date, datetime.time, datetime.timedelta)):", "            elif True:")],
                                        'the repr() of any object is written into the class again (the repaired defect d1ed4bc)'),
+    'c05-address-sixth-argument-dropped': ('C05', [(SRC + 'tokens/composite_tokens/__init__.py', "         ExpressionToken, SeparatorToken, ExpressionToken, SeparatorToken, ExpressionToken, SeparatorToken,\n         ExpressionToken, BracketFinishToken]\n    ]",
+                                                    "         ExpressionToken, SeparatorToken, ExpressionToken, SeparatorToken, ExpressionToken, SeparatorToken,\n         ExpressionToken, BracketFinishToken],\n        [AddressKeywordToken, BracketStartToken, ExpressionToken, SeparatorToken,\n         ExpressionToken, SeparatorToken, ExpressionToken, SeparatorToken, ExpressionToken, SeparatorToken,\n         ExpressionToken, SeparatorToken, IterableExpressionToken, BracketFinishToken]\n    ]")],
+                                           'ADDRESS accepts (and drops) arguments past the fifth again (part of the repaired defect e97b31b)'),
+    'c02-reversed-corners-empty': ('C02', [(SRC + 'excel.py', "            replace(first, column=min(first.column, second.column), row=min(first.row, second.row) if rows_given else first.row),\n", "            first,\n"),
+                                            (SRC + 'excel.py', "            replace(second, column=max(first.column, second.column), row=max(first.row, second.row) if rows_given else second.row))", "            second)")],
+                                   'an area whose corners are not written top-left first has no cells again (the repaired defect f004db1)'),
+    'c03-no-value-memo': ('C03', [(CTX, "        if cell_uid not in values:\n            values[cell_uid] = self._at_midnight(method(self))\n        return values[cell_uid]", "        return self._at_midnight(method(self))")],
+                          'every reference evaluates its precedent again: time doubles per row of =A(n-1)+A(n-1)*0.05 (the repaired defect 5178474)'),
+    'c03-reversed-corners-empty': ('C03', [(SRC + 'excel.py', "            replace(first, column=min(first.column, second.column), row=min(first.row, second.row) if rows_given else first.row),\n", "            first,\n"),
+                                            (SRC + 'excel.py', "            replace(second, column=max(first.column, second.column), row=max(first.row, second.row) if rows_given else second.row))", "            second)")],
+                                   'the same change seen from the entry-point side: the cells of such an area are left out of the slice'),
 }
 
 
